@@ -9,6 +9,7 @@ pub mod trace;
 pub mod httpref;
 pub mod web;
 pub mod reqref;
+pub mod catalog;
 pub mod appgen;
 pub mod tuples_gen;
 pub mod engines;
